@@ -15,12 +15,17 @@ A viewer is `<kind> D px py pz qw qx qy qz ox oy oz c0 s0 c1 s1` (kind `P`oint /
 * `in  <viewer> <box> ux uy`          -> `1`/`0`   certificate "box wholly inside the view volume"
 * `geo <viewer> <box>`                -> `distSq farSq camInside` of the box w.r.t. the camera
 * `cam <viewer>`                      -> camera position
+* `preg D px py pz tx ty tz`          -> `1`/`0`   the model of `Point.visibleRegion.containsPoint` (generated wrappers)
+* `vbound <viewer> tx ty tz`          -> `1`/`0`   membership in the base sphere of `ViewRegion` (generated wrappers)
+* `c2d <P|O|B> D px py pz hc hs ox oy oz c0 s0 tx ty tz` -> `1`/`0`   the model of the 2D fast path
+  `Point2D / OrientedPoint2D / Object2D.canSee(<vector>)` (generated 2D configuration; `hc hs` = cos, sin of the heading)
 -/
 namespace Driver.C17
 open Scenic.Vis Driver
 
 def CFG := Scenic.Gen.visCfg
 def WRAP := Scenic.Gen.visWrapCfg
+def CFG2 := Scenic.Gen.visCfg2D
 
 def mkV : List Rat → Option (V3 × List Rat)
   | a :: b :: c :: rest => some (⟨a, b, c⟩, rest)
@@ -126,6 +131,27 @@ def handle : List String → String
       | some (vw, []) => s!"{showRat vw.cam.x} {showRat vw.cam.y} {showRat vw.cam.z}"
       | _ => "bad-op"
     | none => "bad-op"
+  | "preg" :: rest => match rest.mapM parseRat with
+    | some [d, px, py, pz, tx, ty, tz] => bit (decide (pointRegion WRAP ⟨px, py, pz⟩ d ⟨tx, ty, tz⟩))
+    | _ => "bad-op"
+  | "vbound" :: kind :: rest => match rest.mapM parseRat with
+    | some xs => match mkViewerFrom kind xs with
+      | some (vw, xs) => match mkV xs with
+        | some (t, []) => bit (decide (viewRegionBound WRAP vw.cam vw.D t))
+        | _ => "bad-op"
+      | none => "bad-op"
+    | none => "bad-op"
+  | "c2d" :: kind :: rest => match rest.mapM parseRat with
+    | some [d, px, py, pz, hc, hs, ox, oy, oz, c0, s0, tx, ty, tz] =>
+      let k : Option ViewerKind := match kind with
+        | "P" => some .point
+        | "O" => some .oriented
+        | "B" => some .object
+        | _ => none
+      match k with
+      | some k => bit (decide (canSee2D CFG2 k ⟨px, py, pz⟩ ⟨ox, oy, oz⟩ ⟨hc, hs⟩ d ⟨c0, s0⟩ ⟨tx, ty, tz⟩))
+      | none => "bad-op"
+    | _ => "bad-op"
   | _ => "bad-op"
 
 end Driver.C17
